@@ -162,11 +162,12 @@ def doSub (w : World) (c e t : Nat) (g : Bool) : World :=
         emit w (.sub c e t tm.bound true)
   | _, _ => emit w .bad
 
-/-- removal of listener `id` from list (c, e); the local centre deregisters when a Global list becomes empty -/
-def removeSub (w : World) (ct : CAttr) (c e id : Nat) : World :=
+/-- removal of listener `id` from list (c, e); the local centre deregisters when a Global list becomes empty
+(a light centre has no Global flag: `gflag` never contains one of its lists, see `RegOK`) -/
+def removeSub (w : World) (c e id : Nat) : World :=
   let hit := (lisOf w c e).any (fun l => l.id == id)
   let w := { w with subs := w.subs.filter (fun l => !(l.c == c && l.e == e && l.id == id)) }
-  let w := if !ct.light && w.gflag.contains (c, e) && (lisOf w c e).isEmpty then
+  let w := if w.gflag.contains (c, e) && (lisOf w c e).isEmpty then
              { w with gflag := eraseP (c, e) w.gflag, greg := eraseP (e, c) w.greg } else w
   emit w (.unsub c e id hit)
 
@@ -175,7 +176,7 @@ def doUnsub (w : World) (c e t : Nat) : World :=
   | some ct =>
     if !ct.light && w.locks.contains (c, e) then
       { w with blocked := some .reentrant, out := .blocked :: w.out }
-    else removeSub w ct c e t
+    else removeSub w c e t
   | none => emit w .bad
 
 def doUnsubFn (w : World) (c e f : Nat) : World :=
@@ -183,7 +184,7 @@ def doUnsubFn (w : World) (c e f : Nat) : World :=
   | some ct =>
     if !ct.light then emit w .bad
     else match (lisOf w c e).find? (fun l => l.fn == f) with
-      | some l => removeSub w ct c e l.id
+      | some l => removeSub w c e l.id
       | none => emit w (.unsub c e 0 false)
   | none => emit w .bad
 
@@ -262,26 +263,44 @@ def scriptOf (w : World) (id : Nat) : List SOp :=
   | some tm => tm.script
   | none => []
 
-/-- end of a dispatch: pop the frame, release the read lock (D7 code only) -/
-def closeDisp (w : World) (rest : List Frame) (p c e : Nat) (snap : List Nat) (light : Bool) : World :=
+/-- a loop that ends consumes the guide's "loop ended" mark, if that is what comes next -/
+def dropCls : List GTok → List GTok
+  | .cls :: g => g
+  | g => g
+
+/-- end of a dispatch: pop the frame, release the read lock (D7 code only); `g` = the guide that is left -/
+def closeDisp (w : World) (g : List GTok) (rest : List Frame) (p c e : Nat) (snap : List Nat) (light : Bool) : World :=
   let locks := if w.cfg.d7 && !light && snap.length > 0 then w.locks.erase (c, e) else w.locks
-  { w with stack := rest, locks := locks, out := .cls p :: w.out }
+  { w with guide := g, stack := rest, locks := locks, out := .cls p :: w.out }
+
+/-- is the centre's dispatch loop the pre-fix one? -/
+def defectOf (w : World) (ct : CAttr) : Bool := if ct.light then w.cfg.d14 else w.cfg.d7
+
+/-- pre-fix code only: after `Clear` the loop went on over the old map — listeners of the snapshot that
+were not produced yet, although they are not subscribed any more -/
+def orphans (w : World) (c e : Nat) (snap called : List Nat) : List Sub :=
+  (snap.filter (fun id => !called.contains id)).filterMap
+    (fun id => (tmplOf w id).map (fun tm => ⟨c, e, id, tm.bound, tm.fn, false⟩))
+
+/-- listeners the loop still has to produce: members of the snapshot that are still in the list
+(re-checked before each call) and were not called yet -/
+def mustOf (w : World) (ct : CAttr) (c e : Nat) (snap called : List Nat) : List Sub :=
+  if ct.running then (lisOf w c e).filter (fun l => snap.contains l.id && !called.contains l.id)
+  else orphans w c e snap called
+
+/-- the light centre ranges over the live map: listeners inserted during the loop may or may not be produced -/
+def mayOf (w : World) (ct : CAttr) (c e : Nat) (snap called : List Nat) : List Sub :=
+  if ct.light && ct.running then (lisOf w c e).filter (fun l => !snap.contains l.id && !called.contains l.id) else []
 
 /-- one iteration of the loop in `dispatch` -/
 def stepDisp (w : World) (rest : List Frame) (p c e : Nat) (a : List Nat) (snap called : List Nat) : World :=
   match w.cs[c]? with
-  | none => closeDisp w rest p c e snap false
+  | none => closeDisp w (dropCls w.guide) rest p c e snap false
   | some ct =>
-    let defect := if ct.light then w.cfg.d14 else w.cfg.d7
-    if !ct.running && !defect then closeDisp w rest p c e snap ct.light     -- `if !running { return }`
+    if !ct.running && !defectOf w ct then closeDisp w (dropCls w.guide) rest p c e snap ct.light     -- `if !running { return }`
     else
-      let cur := lisOf w c e
-      -- listeners of the snapshot that are still in the list and were not produced yet
-      let must := cur.filter (fun l => snap.contains l.id && !called.contains l.id)
-      -- light centre ranges over the live map: later insertions may or may not be produced
-      let may := if ct.light then cur.filter (fun l => !snap.contains l.id && !called.contains l.id) else []
-      match pick w.guide must may with
-      | (none, g) => closeDisp { w with guide := g } rest p c e snap ct.light
+      match pick w.guide (mustOf w ct c e snap called) (mayOf w ct c e snap called) with
+      | (none, g) => closeDisp w g rest p c e snap ct.light
       | (some l, g) =>
         { w with guide := g,
                  stack := .script l.id (scriptOf w l.id) :: .disp p c e a snap (l.id :: called) :: rest,
